@@ -23,6 +23,8 @@ RULES = [
     Rule('C09.R4', 'loop markers are recognised case-insensitively, validated with their own duplicate flags, and the repeat counter is re-armed on rewind', 8),
     Rule('C09.R6', 'a loop begin position is always a snapshot taken at the beginning of a row, before any track of that row has advanced', 3),
     Rule('C09.R7', 'recognising a loop marker does not switch off the recognition of the next marker of the same kind (the duplicate-marker validation must see every marker)', 3),
+    Rule('C09.R8', 'a loop setting copied into the live loop state by rewind() is also stored there by its setter (it takes effect without a rewind)', 1),
+    Rule('C09.R9', 'the events that share the row with the loop-end marker are skipped only on passes that jump back', 1),
     Rule('C09.R5', 'loop markers raise the loop flags only while looping is enabled', 2),
 ]
 EXPLANATION = ('CFG dominance / post-dominance over BW_MidiSequencer::processEvents (jump sites vs. the counted controller-123 loops), guard facts for the '
@@ -160,6 +162,9 @@ def analyse(facts, tier):
     obls += r5_enabled(facts)
     obls += r6_row_snapshot(facts)
     obls += r7_idempotent(facts)
+    obls += r8_setter_live(facts)
+    obls += r2_begin_is_loop_start(facts)
+    obls += r9_loop_end_row(facts)
     return obls
 
 
@@ -396,4 +401,149 @@ def r7_idempotent(facts):
                            'stores no member its guards read (%s)' % (', '.join(sorted(reads)) or 'none')))
     if n < 3:
         raise build.AnalysisBroken('C09.R7: marker conversion arms of parseEvent not found (%d)' % n)
+    return out
+
+
+def r8_setter_live(facts):
+    """rewind() re-arms the live loop state from configuration members (`m_loop.loopsCount = m_loopCount`): such a pair (C, L) shows
+    that playback reads L, not C.  Every other function of the sequencer that stores C (the setter) must therefore store L as well,
+    otherwise a value set after loading is ignored until the next rewind / seek (the song keeps repeating with the old count)."""
+    out = []
+    rw = facts.fn(SEQ + '::rewind')
+    pairs = []
+    for b, j, st in rw.cfg.stmts():
+        ap = assign_parts(st['s'])
+        if not ap or ap[2] != '=':
+            continue
+        l, r = strip(ap[0]), strip(ap[1])
+        if l.get('k') == 'MemberExpr' and r.get('k') == 'MemberExpr' and strip(r.get('b')).get('k') == 'CXXThisExpr' and \
+                strip(l.get('b')).get('k') == 'MemberExpr' and short(strip(l['b'])['n']) == 'm_loop':
+            pairs.append((short(r['n']), short(l['n']), st['loc']))
+    if not pairs:
+        raise build.AnalysisBroken('C09.R8: rewind() copies no configuration member into the live loop state')
+    for cfg, live, loc in pairs:
+        setters = []
+        for fn in facts.all_fns():
+            if not fn.name.startswith(SEQ + '::') or fn.d.get('ctor') or short(fn.name) in ('rewind',) or fn.tree is None:
+                continue
+            stores_cfg = stores_live = None
+            for b, j, st in fn.cfg.stmts():
+                ap = assign_parts(st['s'])
+                if not ap:
+                    continue
+                l = strip(ap[0])
+                if l.get('k') == 'MemberExpr' and short(l['n']) == cfg and strip(l.get('b')).get('k') == 'CXXThisExpr':
+                    stores_cfg = st['loc']
+                if l.get('k') == 'MemberExpr' and short(l['n']) == live and strip(l.get('b')).get('k') == 'MemberExpr' and short(strip(l['b'])['n']) == 'm_loop':
+                    stores_live = st['loc']
+            if stores_cfg:
+                setters.append((fn, stores_cfg, stores_live))
+        if not setters:
+            raise build.AnalysisBroken('C09.R8: no setter of %s found' % cfg)
+        for fn, sc, sl in setters:
+            out.append(Obl('C09.R8', fn.name, '%s -> m_loop.%s' % (cfg, live), sc, 'discharged' if sl else 'finding',
+                           why='stores the live state as well' if sl else
+                           '%s stores %s only; playback reads m_loop.%s, which is copied from it by rewind() / load only: a value set after loading is ignored until the next rewind' % (short(fn.name), cfg, live)))
+    return out
+
+
+def r2_begin_is_loop_start(facts):
+    """without a valid loopStart marker the loop body starts at the song begin (m_loopStartTime stays negative).  "Once per pass
+    through the loop start" then needs the loop-start flag armed exactly under that condition at the three places a pass begins:
+    the end of the load (buildTimeLine), rewind(), and the global jump of processEvents.  An unconditional `= true` in rewind()
+    gives marker songs one callback too many; a missing arming gives marker-less songs none."""
+    out = []
+    def arming(fn):
+        """(loc, conditional?) of the stores to m_loop.caughtStart in fn; conditional = the value or a guard compares m_loopStartTime with 0"""
+        res = []
+        for b, j, st in fn.cfg.stmts():
+            for x in walk(st['s']):
+                ap = assign_parts(x)
+                if not ap:
+                    continue
+                l = strip(ap[0])
+                if not (l.get('k') == 'MemberExpr' and short(l['n']) == 'caughtStart'):
+                    continue
+                if const_of(ap[1]) == 0:
+                    continue            # consumption / reset
+                by_value = any(y.get('k') == 'MemberExpr' and short(y['n']) == 'm_loopStartTime' for y in walk(ap[1]))
+                by_guard = any(f[0] == 'cmp' and f[1] in ('<', '<=') and mentions(f[2], member_named('m_loopStartTime')) for f in guard_facts(fn, b, st))
+                res.append((st['loc'], by_value or by_guard, b, j))
+        return res
+    for fname, what in (('buildTimeLine', 'end of load'), ('rewind', 'rewind'), ('processEvents', 'global loop jump')):
+        fn = facts.fn(SEQ + '::' + fname)
+        ar = arming(fn)
+        ok = bool(ar) and all(c for _, c, _, _ in ar)
+        if fname == 'processEvents' and ok:
+            # the arming must follow the jump: a store to m_currentPosition dominates it
+            jumps = [(b, j) for b, j, st in fn.cfg.stmts() for ap in [assign_parts(st['s'])] if ap and strip(ap[0]).get('k') == 'MemberExpr'
+                     and short(strip(ap[0])['n']) == 'm_currentPosition' and 'Position' in ((strip(ap[0]).get('t') or {}).get('s') or '')]
+            ok = all(any(fn.cfg.reaches(jb, b) or (jb == b and jj < j) for jb, jj in jumps) for _, _, b, j in ar)
+        loc = ar[0][0] if ar else fn.loc
+        out.append(Obl('C09.R2', fn.name, 'loop-start flag armed at the %s exactly when the song has no loopStart marker' % what, loc, 'discharged' if ok else 'finding',
+                       why='caughtStart := (m_loopStartTime < 0)' if ok else
+                       ('no arming of m_loop.caughtStart: a song without a loopStart marker gets no loop-start callback for the pass that begins here' if not ar else
+                        'm_loop.caughtStart is armed unconditionally: a song whose loopStart marker comes later gets an extra loop-start callback at the song begin')))
+    # the callback of the consumed flag is invoked only while looping is enabled (as the markers are honoured only then)
+    pe = facts.fn(SEQ + '::processEvents')
+    n = 0
+    for b, j, st in pe.cfg.stmts():
+        for x in walk(st['s']):
+            if 'callee_e' in x or 'callee' in x:
+                ce = x.get('callee_e') or {}
+                if 'onloopStart' in show(ce) or 'onloopStart' in (x.get('callee') or ''):
+                    gf = guard_facts(pe, b, st)
+                    if not any(f[0] == 'truth' and f[2] and mentions(f[1], member_named('caughtStart')) for f in gf):
+                        continue
+                    n += 1
+                    ok = any(f[0] == 'truth' and f[2] and mentions(f[1], member_named('m_loopEnabled')) for f in gf)
+                    out.append(Obl('C09.R2', pe.name, 'song-begin loop-start callback only while looping is enabled', st['loc'], 'discharged' if ok else 'finding',
+                                   why='guarded by m_loopEnabled' if ok else 'with looping disabled a marker-less song still reports a loop start at its first row'))
+    if n < 1:
+        raise build.AnalysisBroken('C09.R2: loop-start callback under caughtStart not found in processEvents')
+    return out
+
+
+def r9_loop_end_row(facts):
+    """a row is sorted metas-first, so the loopEnd marker precedes the controllers, program changes and note-ons of its own tick.
+    processEvents leaves the row (`break`) as soon as the marker raises the flag and then steps over the row.  That is right when a
+    jump follows (those events lie behind the loop end), but on the pass that leaves the loop they are "everything after the loop
+    end" and must be delivered once: the break has to depend on whether another pass follows (loopsLeft / loopsCount)."""
+    out = []
+    pe = facts.fn(SEQ + '::processEvents')
+    n = 0
+    hits = []
+    def rec(t, conds):
+        if isinstance(t, dict):
+            k = t.get('k')
+            if k == 'BreakStmt':
+                hits.append((t, list(conds)))
+                return
+            if k in ('ForStmt', 'WhileStmt', 'DoStmt', 'SwitchStmt'):
+                for k2 in ('body',):
+                    rec(t.get(k2), [])          # a break leaves the innermost loop only
+                return
+            if k == 'IfStmt':
+                rec(t.get('then'), conds + [(t.get('cond'), True)])
+                rec(t.get('else'), conds + [(t.get('cond'), False)])
+                return
+            for k2 in ('body', 'sub', 'then', 'else'):
+                v = t.get(k2)
+                if isinstance(v, (dict, list)):
+                    rec(v, conds)
+        elif isinstance(t, list):
+            for y in t:
+                rec(y, conds)
+    rec(pe.tree, [])
+    for brk, conds in hits:
+        txt = ' '.join(show(c) for c, pol in conds)
+        if 'caughtEnd' not in txt:
+            continue
+        n += 1
+        ok = 'loopsLeft' in txt or 'loopsCount' in txt
+        out.append(Obl('C09.R9', pe.name, 'row cut at the loop-end marker', '%s:%s' % (pe.file, brk.get('ln')), 'discharged' if ok else 'finding',
+                       why='the cut depends on the remaining passes' if ok else
+                       'the row is left at the loopEnd marker on every pass, also on the one after which no jump follows: controllers, program changes and note-ons of the same track on the loopEnd tick are never delivered (song 60@0 loopStart@96 61@96 62@192 loopEnd@288 63@288 64@384, count 2: note 63 is played on no pass)'))
+    if n < 1:
+        raise build.AnalysisBroken('C09.R9: the break at the loop-end marker not found in processEvents')
     return out
